@@ -623,16 +623,43 @@ def _wiring(run):
                     return True
         return False
 
-    tests = [n for n in gcfg.live_nodes() if n.kind == 'test' and mentions_cors_class(n.ast)
-             and any(is_self_attr(x, '_cors_enable') for x in ast.walk(n.ast))]
-    if not tests:
-        raise AnchorError('App.add_middleware: no test over self._cors_enable and isinstance(_, CORSMiddleware)')
+    def is_flag_attr(e):
+        return is_self_attr(e, '_cors_enable')
+
+    cors_tests = [n for n in gcfg.live_nodes() if n.kind == 'test' and mentions_cors_class(n.ast)]
+    tests = [n for n in cors_tests if any(is_flag_attr(x) for x in ast.walk(n.ast))]
     writers = [n for n in gcfg.live_nodes() if n.kind == 'stmt' and (
         (isinstance(n.ast, ast.AugAssign) and is_self_attr(n.ast.target, '_unprepared_middleware'))
         or (isinstance(n.ast, ast.Assign) and any(is_self_attr(tg, '_unprepared_middleware') for tg in n.ast.targets))
         or any(isinstance(c.func, ast.Attribute) and c.func.attr in ('append', 'extend', 'insert') and is_self_attr(c.func.value, '_unprepared_middleware') for c in n.calls()))]
     if not writers:
         raise AnchorError('App.add_middleware: no writer of _unprepared_middleware')
+
+    def only_raises(tn):
+        t_succ = [y for (y, l) in gcfg.succ[tn.id] if l == 'T']
+        return bool(t_succ) and flow.find_path(gcfg, t_succ, [w.id for w in writers] + [gcfg.exit], edge_filter=flow.no_exc) is None
+
+    # the refusal is the counterpart of cors_enable (which already constructs one instance): it applies only under the flag.
+    # Every test over isinstance(_, CORSMiddleware) whose true branch only raises must imply a truthy self._cors_enable on that
+    # branch - by itself or through a test that dominates it (auto-mutation seed sa-am00072: the conjunct dropped).
+    refusing = [n for n in cors_tests if only_raises(n)]
+    tests = tests + [n for n in refusing if n not in tests]
+    if not tests:
+        raise AnchorError('App.add_middleware: no test over self._cors_enable and isinstance(_, CORSMiddleware)')
+    flag_edges = [(n.id, y, l) for n in gcfg.live_nodes() if n.kind == 'test' for (y, l) in gcfg.succ[n.id]
+                  if l in ('T', 'F') and implied(n.ast, l == 'T', is_flag_attr) is True]
+    read_flag = {id(x) for n in gcfg.live_nodes() if n.kind == 'test' for x in ast.walk(n.ast) if is_flag_attr(x)}
+    for tn in refusing:
+        ok = implied(tn.ast, True, is_flag_attr) is True or any(flow.dominated_by_edge(gcfg, tn.id, e) for e in flag_edges if e[0] != tn.id)
+        if not ok:
+            elsewhere = [x for x in walk_self(g.node) if is_flag_attr(x) and id(x) not in read_flag]
+            if elsewhere:
+                raise UnknownIdiom('App.add_middleware: self._cors_enable is used outside a branch condition; the guard %s cannot be related to it'
+                                   % short(tn.ast, 80))
+        run.check(ok, 'a second CORSMiddleware is refused only under cors_enable (the refusing branch implies a truthy self._cors_enable); '
+                      'explicitly configured policies are not refused when the flag is off', g, tn.ast,
+                  runtime_witness='App(middleware=[CORSMiddleware(allow_origins="a"), CORSMiddleware(allow_origins="b")]) raises ValueError '
+                                  'although cors_enable is False: the configured policies are never served')
     for tn in tests:
         t_succ = [y for (y, l) in gcfg.succ[tn.id] if l == 'T']
         # the true branch cannot reach a writer or the normal exit
